@@ -3,7 +3,9 @@
 manifest stays valid while checks are added)."""
 import json, sys
 
-BASE_NOTE = ("Trusted base: go/types, go/ssa, CHA/VTA call graphs of golang.org/x/tools v0.29.0; Go reflect semantics as documented; "
+BASE_NOTE = ("Trusted base: go/types, go/ssa, CHA/VTA call graphs of golang.org/x/tools v0.29.0, and - only when the tree contains functions the rules "
+             "do not know (new helpers) - the source-level inliner of x/tools (copy under checker/internal/xt) plus the checker's own unwrapping of "
+             "function literals, through which such helpers are analysed inline; Go reflect semantics as documented; "
              "dig uses no unsafe/MakeFunc/cgo/linkname (checked); single-goroutine use. The check decides structural necessary "
              "conditions of the property for all inputs/histories at once; it does not decide the behavioural statement whole.")
 
@@ -79,11 +81,17 @@ CLAIMS = {
 NOT_YET = "check not built yet in this revision of /verif (static rules designed in DESIGN.md section 4; will be claimed when the rule pack lands)"
 
 def main():
+    import subprocess
     props = [json.loads(l)["id"] for l in open("/verif/properties.jsonl")]
+    # the level text is the explanation the checker itself prints into the evidence (kept in one place: checker/internal/rules/props.go)
+    expl = json.loads(subprocess.run(["/verif/bin/digcheck", "-explain"], capture_output=True, text=True, check=True).stdout)
     checks, na = [], []
     for pid in props:
         if pid in CLAIMS:
             tech, text, ref = CLAIMS[pid]
+            text = ("Static analysis, level 'other': structural necessary conditions of the property are decided from /repo's current "
+                    "source for every input, history and fault sequence at once (which the example-based suite cannot do); the behavioural "
+                    "statement as a whole is not decided. " + expl[pid]["explanation"])
             checks.append({
                 "property_id": pid,
                 "quick_cmd": f"./verify.sh {pid} quick",
